@@ -38,6 +38,9 @@ const prop = "C16"
 type server struct {
 	variant string
 	fed     bool
+	// embedded: the schema files lie inside the executor's directory (//go:embed delivery); the delivery matters
+	// for the server's OWN schema only, so rendered schemas (Config.Schema) are served by it only now and then
+	embedded bool
 	procs   []*vlib.Proc
 }
 
@@ -423,7 +426,7 @@ func main() {
 	}
 	var servers []*server
 	for _, v := range variants {
-		s := &server{variant: v.Name, fed: v.Name == "fed"}
+		s := &server{variant: v.Name, fed: v.Name == "fed", embedded: strings.HasPrefix(v.Name, "e")}
 		n := perVariant
 		if s.fed {
 			n = 1
@@ -736,6 +739,9 @@ func oneView(c *vlib.Check, rep *reporter, idx int, cs *c16lib.Case, plain []*se
 			q{"__type includeDeprecated:false", c16lib.TypesQuery(names, "false"), nil, false, true})
 	}
 	for _, srv := range plain {
+		if srv.embedded && !cs.Own && idx%8 != 0 && replay == nil {
+			continue
+		}
 		cmd := ur.C16Cmd{ID: strconv.Itoa(idx), SDL: sdl}
 		for _, x := range qs {
 			cmd.Runs = append(cmd.Runs, ur.C16Run{Query: x.query, Vars: x.vars, Ext: true})
